@@ -283,97 +283,109 @@ var c03 = gen.Register(&gen.Check[caseC03]{
 	Required: []string{"accepted", "reject:length", "reject:prefix", "reject:range-x", "reject:range-y", "reject:not-on-curve", "reject:hex",
 		"kind:alias-x", "kind:alias-y", "dec:coordinates", "dec:compressed", "dec:uncompressed", "prior:z!=1-or-identity"},
 	Run: func(c caseC03, o *gen.Obs) error {
-		prior, err := pt.Build(c.Prior)
-		if err != nil {
-			o.Class("skipped:builder-error")
-			return nil
+		// every case is evaluated twice in a row: the verdict on an input must not depend on the input having been
+		// presented just before (decoders that remember their last input)
+		if err := c03Once(c, o); err != nil {
+			return err
 		}
-		data := gen.HexBytes(c.Data)
-		if c.Nil {
-			data = nil
-		}
-		enc0, unc0, id0 := snapshotElement(prior)
-		o.Class("kind:" + c.Kind)
-		o.Class("dec:" + c.Decoder)
-		o.ClassIf(len(c.Prior.Steps) > 0 || c.Prior.Base.Kind == "id", "prior:z!=1-or-identity")
-		var (
-			want   ref.Point
-			reason string
-			derr   error
-			e      = prior.E
-			input  = append([]byte(nil), data...)
-		)
-		switch c.Decoder {
-		case "decode":
-			want, reason = ref.Decode(ref.FormAny, data)
-			derr = e.Decode(data)
-		case "unmarshal":
-			want, reason = ref.Decode(ref.FormAny, data)
-			derr = e.UnmarshalBinary(data)
-		case "compressed":
-			want, reason = ref.Decode(ref.FormCompressed, data)
-			derr = e.DecodeCompressed(data)
-		case "uncompressed":
-			want, reason = ref.Decode(ref.FormUncompressed, data)
-			derr = e.DecodeUncompressed(data)
-		case "coordinates":
-			if len(data) != 64 {
-				panic("harness: coordinates case needs 64 bytes")
-			}
-			want, reason = ref.DecodeCoordinates(data[:32], data[32:])
-			derr = e.DecodeCoordinates([32]byte(data[:32]), [32]byte(data[32:]))
-		case "hex":
-			if isHex(c.Text) {
-				data, _ = hex.DecodeString(c.Text)
-				input = append([]byte(nil), data...)
-				want, reason = ref.Decode(ref.FormAny, data)
-			} else {
-				reason = "hex"
-			}
-			derr = e.DecodeHex(c.Text)
-		default:
-			panic("decoder")
-		}
-		if !bytes.Equal(input, data) {
-			return gen.Fail("Decode/mutates-input", "the decoder modified its input")
-		}
-		if reason == ref.ReasonOK {
-			o.Class("accepted")
-		} else {
-			o.Class("reject:" + reason)
-		}
-		o.NonTrivialIf(c.Kind != "random" || reason == ref.ReasonOK || (len(data) == 33 || len(data) == 65 || len(data) == 1))
-		site := "Decode[" + c.Decoder + "]"
-		if reason != ref.ReasonOK {
-			if derr == nil {
-				return gen.Fail(site+"/accepts-invalid:"+reason, "%s accepted %x%s (must be rejected: %s); receiver now %x", c.Decoder, data, c.Text, reason, e.Encode())
-			}
-			enc1, unc1, id1 := snapshotElement(prior)
-			if !bytes.Equal(enc0, enc1) || !bytes.Equal(unc0, unc1) || id0 != id1 {
-				return gen.Fail(site+"/rejected-changes-receiver", "rejected input %x%s (%s) changed the receiver from %x to %x", data, c.Text, reason, enc0, enc1)
-			}
-			return nil
-		}
-		if derr != nil {
-			if c.Decoder == "hex" && c.Text != strings.ToLower(c.Text) {
-				o.Class("hex-uppercase-rejected")
-				return nil // whether upper-case hex digits are accepted is not part of the statement
-			}
-			return gen.Fail(site+"/rejects-valid", "%s rejected the valid encoding %x of %s: %v", c.Decoder, data, want, derr)
-		}
-		if got := e.Encode(); !bytes.Equal(got, ref.Compress(want)) {
-			return gen.Fail(site+"/value", "decoded %x to %x, want %x", data, got, ref.Compress(want))
-		}
-		if !want.Inf {
-			if got := e.EncodeUncompressed(); !bytes.Equal(got, ref.Uncompressed(want)) {
-				return gen.Fail(site+"/value-y", "decoded %x to %x, want %x", data, got, ref.Uncompressed(want))
-			}
-		}
-		if e.IsIdentity() != want.Inf {
-			return gen.Fail(site+"/is-identity", "IsIdentity = %v after decoding %x", e.IsIdentity(), data)
+		if err := c03Once(c, &gen.Obs{}); err != nil {
+			return gen.Fail("repeat/"+errClass(err), "second presentation of the same input: %v", err)
 		}
 		return nil
 	},
 })
 
 func TestC03Decoders(t *testing.T) { c03.Execute(t) }
+
+func c03Once(c caseC03, o *gen.Obs) error {
+	prior, err := pt.Build(c.Prior)
+	if err != nil {
+		o.Class("skipped:builder-error")
+		return nil
+	}
+	data := gen.HexBytes(c.Data)
+	if c.Nil {
+		data = nil
+	}
+	enc0, unc0, id0 := snapshotElement(prior)
+	o.Class("kind:" + c.Kind)
+	o.Class("dec:" + c.Decoder)
+	o.ClassIf(len(c.Prior.Steps) > 0 || c.Prior.Base.Kind == "id", "prior:z!=1-or-identity")
+	var (
+		want   ref.Point
+		reason string
+		derr   error
+		e      = prior.E
+		input  = append([]byte(nil), data...)
+	)
+	switch c.Decoder {
+	case "decode":
+		want, reason = ref.Decode(ref.FormAny, data)
+		derr = e.Decode(data)
+	case "unmarshal":
+		want, reason = ref.Decode(ref.FormAny, data)
+		derr = e.UnmarshalBinary(data)
+	case "compressed":
+		want, reason = ref.Decode(ref.FormCompressed, data)
+		derr = e.DecodeCompressed(data)
+	case "uncompressed":
+		want, reason = ref.Decode(ref.FormUncompressed, data)
+		derr = e.DecodeUncompressed(data)
+	case "coordinates":
+		if len(data) != 64 {
+			panic("harness: coordinates case needs 64 bytes")
+		}
+		want, reason = ref.DecodeCoordinates(data[:32], data[32:])
+		derr = e.DecodeCoordinates([32]byte(data[:32]), [32]byte(data[32:]))
+	case "hex":
+		if isHex(c.Text) {
+			data, _ = hex.DecodeString(c.Text)
+			input = append([]byte(nil), data...)
+			want, reason = ref.Decode(ref.FormAny, data)
+		} else {
+			reason = "hex"
+		}
+		derr = e.DecodeHex(c.Text)
+	default:
+		panic("decoder")
+	}
+	if !bytes.Equal(input, data) {
+		return gen.Fail("Decode/mutates-input", "the decoder modified its input")
+	}
+	if reason == ref.ReasonOK {
+		o.Class("accepted")
+	} else {
+		o.Class("reject:" + reason)
+	}
+	o.NonTrivialIf(c.Kind != "random" || reason == ref.ReasonOK || (len(data) == 33 || len(data) == 65 || len(data) == 1))
+	site := "Decode[" + c.Decoder + "]"
+	if reason != ref.ReasonOK {
+		if derr == nil {
+			return gen.Fail(site+"/accepts-invalid:"+reason, "%s accepted %x%s (must be rejected: %s); receiver now %x", c.Decoder, data, c.Text, reason, e.Encode())
+		}
+		enc1, unc1, id1 := snapshotElement(prior)
+		if !bytes.Equal(enc0, enc1) || !bytes.Equal(unc0, unc1) || id0 != id1 {
+			return gen.Fail(site+"/rejected-changes-receiver", "rejected input %x%s (%s) changed the receiver from %x to %x", data, c.Text, reason, enc0, enc1)
+		}
+		return nil
+	}
+	if derr != nil {
+		if c.Decoder == "hex" && c.Text != strings.ToLower(c.Text) {
+			o.Class("hex-uppercase-rejected")
+			return nil // whether upper-case hex digits are accepted is not part of the statement
+		}
+		return gen.Fail(site+"/rejects-valid", "%s rejected the valid encoding %x of %s: %v", c.Decoder, data, want, derr)
+	}
+	if got := e.Encode(); !bytes.Equal(got, ref.Compress(want)) {
+		return gen.Fail(site+"/value", "decoded %x to %x, want %x", data, got, ref.Compress(want))
+	}
+	if !want.Inf {
+		if got := e.EncodeUncompressed(); !bytes.Equal(got, ref.Uncompressed(want)) {
+			return gen.Fail(site+"/value-y", "decoded %x to %x, want %x", data, got, ref.Uncompressed(want))
+		}
+	}
+	if e.IsIdentity() != want.Inf {
+		return gen.Fail(site+"/is-identity", "IsIdentity = %v after decoding %x", e.IsIdentity(), data)
+	}
+	return nil
+}
